@@ -548,11 +548,12 @@ class Visitor(ast.NodeVisitor):
         # NOTE: We must distinguish between a name which is bound to ``None`` and a name which can not be resolved.
         # Otherwise, an argument bound to ``None`` would be taken for a built-in of the same name (*e.g.*, ``id``)
         # or for a name local to the lambda.
-        if node.id in self._name_to_value:
-            result = self._name_to_value[node.id]
-        elif self._mangled_names.get(node.id, None) in self._name_to_value:
-            # A private name written in a class body has been mangled by the compiler.
+        if self._mangled_names.get(node.id, None) in self._name_to_value:
+            # A private name written in a class body has been mangled by the compiler, so Python does not look up
+            # the name as it was written.
             result = self._name_to_value[self._mangled_names[node.id]]
+        elif node.id in self._name_to_value:
+            result = self._name_to_value[node.id]
         elif hasattr(builtins, node.id):
             result = getattr(builtins, node.id)
         elif node.id != "None":
